@@ -167,6 +167,7 @@ class C02(Prop):
                 # names that are module globals and, in some programs, also locals of the paused function
                 st.lists(st.sampled_from(['G_INT', 'g_helper', 'G_LIST', 'n']), min_size=1, max_size=3, unique=True)),
             'route': st.sampled_from(['triggers', 'response']),
+            'slow_clock': st.sampled_from([False] * 7 + [True]),
             'cfg': fd({
                 'APP_ROOT': st.sampled_from(['/app', '/app/pkg', '/nowhere', '/app/pkg/mod']),
                 'IN_APP_INCLUDE': st.sampled_from([[], ['/app/lib'], ['/app/other', '/app/pkg']]),
@@ -206,7 +207,12 @@ class C02(Prop):
         readings = {}
         problems = []
         compared = [0]
-        info = {'depth': 0, 'container_local': False}
+        info = {'depth': 0, 'container_local': False, 'slow': bool(recipe.get('slow_clock'))}
+        if info['slow']:
+            # every clock read costs 60 ms: the processing-time budget of the snapshot runs out while the stack is walked;
+            # which variables still make it is C05's subject - what is reported about each frame must still be true
+            lab.CLOCK.auto = 60_000_000
+            out.cls('time_budget_runs_out')
 
         def interesting(ev, frame):
             if t['kind'] == 'line':
@@ -236,7 +242,10 @@ class C02(Prop):
         ip = probe.Interposer(handler.trace_call, interesting=interesting, reader=lambda fr, ev: read_chain(fr))
         ip.before_delegate = before
         ip.after_delegate = after
-        progs.run_program(recipe['prog'], rendered, tracer=ip.trace, values=vals)
+        try:
+            progs.run_program(recipe['prog'], rendered, tracer=ip.trace, values=vals)
+        finally:
+            lab.CLOCK.auto = 0
         if ip.agent_raised:
             out.violate('agent raised into the program: %s' % ip.agent_raised[0][1])
         for sig, detail in problems[:1]:
@@ -314,7 +323,10 @@ class C02(Prop):
                 if names:
                     raise M('frame-has-variables-against-frame_type', p, {'frame_type': ft})
                 continue
-            if i == 0:
+            if info.get('slow'):
+                if set(names) - set(rd['locals']):
+                    raise M('frame-invented-variable', p, {'extra': sorted(set(names) - set(rd['locals']))[:4]})
+            elif i == 0:
                 if sorted(names) != sorted(rd['locals'].keys()):
                     raise M('frame0-variable-names-differ-from-locals', p,
                             {'missing': sorted(set(rd['locals']) - set(names))[:4],
@@ -323,7 +335,8 @@ class C02(Prop):
                 extra = set(names) - set(rd['locals'])
                 if extra:
                     raise M('outer-frame-invented-variable', p, {'extra': sorted(extra)[:4]})
-                if rd['file'].startswith('/app') and len(rd['locals']) <= 40 and set(names) != set(rd['locals']):
+                if rd['file'].startswith('/app') and len(rd['locals']) <= 40 and set(names) != set(rd['locals']) \
+                        and not info.get('slow'):
                     raise M('outer-frame-variables-missing', p, {'missing': sorted(set(rd['locals']) - set(names))[:4]})
             sd = shortest_depths(list(rd['locals'].values())) if i == 0 else {}
             if i == 0 and any(oracle.is_container(v) or (oracle.is_friendly(v) and type(v) not in oracle.SCALARS)
@@ -333,7 +346,8 @@ class C02(Prop):
             for v in fr.variables:
                 if v.name not in rd['locals']:
                     continue
-                compare_complete(snap.var_lookup, v.vid, rd['locals'][v.name], sd, p + [v.name], seen, i == 0)
+                compare_complete(snap.var_lookup, v.vid, rd['locals'][v.name], sd, p + [v.name], seen,
+                                 i == 0 and not info.get('slow'))
         # ---- watches -------------------------------------------------------------------------------
         got_w = [w for w in snap.watches if w.source == 'WATCH']
         if [w.expression for w in got_w] != watches:
